@@ -337,3 +337,8 @@ SUBS = [
     Sub("slices", check_slice, enumerate=slice_cases),
 ]
 KNOWN = {}
+
+# second use of one view object after its sources were edited (shared sub-check, see pv/reuse.py)
+from pv import reuse  # noqa: E402
+SUBS.append(reuse.sub(ID))
+RULE += reuse.RULE
